@@ -69,6 +69,7 @@ func c04Answer(kind string, req *dns.Msg) (resp *dns.Msg) {
 	case "nodatasoa":
 		resp.Ns = []dns.RR{soa(20, 5)}
 	case "nodatanosoa":
+		resp.Ns = []dns.RR{vdns.MustRR(fmt.Sprintf("%s 20 %s NS ns.%s", name, cl, name))}
 	case "nx":
 		resp.Rcode = dns.RcodeNameError
 		resp.Ns = []dns.RR{soa(20, 20)}
@@ -76,6 +77,7 @@ func c04Answer(kind string, req *dns.Msg) (resp *dns.Msg) {
 		resp.Rcode = dns.RcodeServerFailure
 	case "refused":
 		resp.Rcode = dns.RcodeRefused
+		resp.Ns = []dns.RR{soa(20, 20)}
 	case "tc":
 		resp.Truncated = true
 		resp.Answer = []dns.RR{rec(10)}
